@@ -1,6 +1,48 @@
 import WhVerif.Util.Proto
+import WhVerif.Model.C04Json
+import WhVerif.Model.C20
 namespace WhVerif.Driver.C20
-open Lean WhVerif.Proto
+open Lean WhVerif.Proto WhVerif.C04 WhVerif.C04.Json WhVerif.C20
+
+def read? (j : Json) : Option Read := do
+  some ⟨← getStr? j "name", ← getInt? j "source_id", ← getStr? j "sample", ← getNatList? j "positions"⟩
+
+def inst? (j : Json) : Option Inst := do
+  some ⟨← getStr? j "chrom", ← (← getList? j "reads").mapM read?, ← getNatList? j "partition",
+        ← (← getList? j "comps").mapM pairNat?, ← getNatList? j "positions", ← getNatList? j "recomb",
+        ← getNatList? j "tv", ← strList? (← getObj? j "children")⟩
+
+def ofReadRow (r : ReadRow) : Json :=
+  Json.arr #[Json.str r.name, ofInt r.sourceId, Json.str r.sample, ofNat r.phaseSet, ofNat r.hap, ofNat r.nVariants,
+    ofNat r.first, ofNat r.last]
+
+def ofRecRow (r : RecRow) : Json :=
+  Json.arr #[Json.str r.child, Json.str r.chrom, ofNat r.pos1, ofNat r.pos2, ofNat r.f1, ofNat r.f2, ofNat r.m1,
+    ofNat r.m2, ofNat r.cost]
+
+def chrom? (j : Json) : Option ChromRun := do
+  some ⟨← getBool? j "selected", ← (← getList? j "families").mapM inst?, ← (← getList? j "gtChanges").mapM change?⟩
+
+def opts? (j : Json) : Option Opts := do
+  some ⟨← getBool? j "readList", ← getBool? j "gtList", ← getBool? j "recList", ← getBool? j "repaired"⟩
+
+def ofOptList {α} (f : α → Json) : Option (List α) → Json
+  | none => Json.null
+  | some l => ofList f l
+
 /-- ops of property C20 are named `c20.<name>`; return `none` for ops that are not ours -/
-def handle (_op : String) (_j : Json) : Option Json := none
+def handle (op : String) (j : Json) : Option Json :=
+  if op == "c20.rows" then
+    match (getObj? j "inst").bind inst? with
+    | some i => some (Json.mkObj [("read", ofList ofReadRow (readListRows i)), ("rec", ofList ofRecRow (recombRows i)),
+                                  ("readErrors", ofNat (i.reads.length - (readListRows i).length))])
+    | none => some badInput
+  else if op == "c20.run" then
+    match (getObj? j "opts").bind opts?, (getList? j "chroms").bind (·.mapM chrom?) with
+    | some o, some cs =>
+      let fs := run o cs
+      some (Json.mkObj [("readList", ofOptList ofReadRow fs.readList), ("gtList", ofOptList ofChange fs.gtList),
+                        ("recList", ofOptList ofRecRow fs.recList)])
+    | _, _ => some badInput
+  else none
 end WhVerif.Driver.C20
